@@ -68,6 +68,25 @@ static char vp_val[VP_NF][VP_V + 1];
 static size_t vp_vlen[VP_NF];
 static unsigned vp_nameidx[VP_NF];
 
+#define VP_IS_CL(k) ((k) == 1 || (k) == 3)
+#define VP_IS_TE(k) ((k) == 2 || (k) == 4)
+#define VP_HAS_CL (VP_IS_CL(VP_K0) || VP_IS_CL(VP_K1) || VP_IS_CL(VP_K2))
+#define VP_HAS_TE (VP_IS_TE(VP_K0) || VP_IS_TE(VP_K1) || VP_IS_TE(VP_K2))
+
+/* KF_CL_SYNTAX: a Content-Length value that is not 1*DIGIT but that strtoll() converts completely:
+ * optional isspace() bytes (only VT / FF can survive OWS trimming), optional sign, 1*DIGIT */
+static int kf_cl_lenient(const ref_u8 *p, size_t n)
+{
+	size_t i = 0, d;
+	while (i < n && (p[i] == 0x0b || p[i] == 0x0c || p[i] == ' ' || p[i] == '\t')) i++;
+	if (i < n && (p[i] == '+' || p[i] == '-')) i++;
+	if (i == 0 || i == n)
+		return 0;
+	for (d = i; d < n; d++)
+		if (!ref_is_digit(p[d])) return 0;
+	return 1;
+}
+
 static int is_te(unsigned i) { return i == 2 || i == 4; }
 static int is_cl(unsigned i) { return i == 1 || i == 3; }
 
@@ -79,8 +98,7 @@ void harness_framing(void)
 	struct ref_field F[VP_NF];
 	unsigned nf, i, k, permitted;
 	unsigned long long ref_len = 0;
-	int n_te = 0, n_cl = 0, te_not_exact = 0, first_cl = -1, first_cl_ok = 0, nobody_method;
-	unsigned long long dummy;
+	int n_te = 0, n_cl = 0, te_not_exact = 0, first_cl = -1, first_cl_lenient = 0, nobody_method;
 	static const enum evhttp_cmd_type types[] = { EVHTTP_REQ_GET, EVHTTP_REQ_POST, EVHTTP_REQ_PUT, EVHTTP_REQ_HEAD, EVHTTP_REQ_TRACE, EVHTTP_REQ_CONNECT, EVHTTP_REQ_DELETE };
 
 	memset(&req, 0, sizeof(req));
@@ -125,7 +143,7 @@ void harness_framing(void)
 			if (ref_te_classify(F[i].value, F[i].value_len) != REF_TE_ONLY_CHUNKED) te_not_exact = 1;
 		}
 		if (is_cl(vp_nameidx[i])) {
-			if (first_cl < 0) { first_cl = (int)i; first_cl_ok = ref_content_length(F[i].value, F[i].value_len, &dummy); }
+			if (first_cl < 0) { first_cl = (int)i; first_cl_lenient = kf_cl_lenient(F[i].value, F[i].value_len); }
 			n_cl++;
 		}
 	}
@@ -134,7 +152,7 @@ void harness_framing(void)
 	/* known-finding predicates (syntactic, over the input) */
 #define KFP_TE   (n_te > 0 && te_not_exact)
 #define KFP_DUP  (n_cl > 1)
-#define KFP_SYN  (n_cl > 0 && !first_cl_ok)
+#define KFP_SYN  (n_cl > 0 && first_cl_lenient)
 #define KFP_NOB  (nobody_method && (n_te > 0 || n_cl > 0))
 #ifdef KF_EXCLUDE_TE_NOT_CHUNKED
 	__CPROVER_assume(!KFP_TE);
@@ -161,6 +179,11 @@ void harness_framing(void)
 	__CPROVER_assume(KFP_NOB && !KFP_TE && !KFP_DUP && !KFP_SYN);
 #endif
 
+#if defined(KF_ONLY_TE_NOT_CHUNKED) || defined(KF_ONLY_CL_DUP) || defined(KF_ONLY_CL_SYNTAX) || defined(KF_ONLY_NOBODY_METHOD)
+#define VP_KF_ONLY 1
+#else
+#define VP_KF_ONLY 0
+#endif
 	permitted = ref_request_body(F, nf, req.major, req.minor, &ref_len);
 
 	evhttp_get_body(&evcon, &req);
@@ -170,24 +193,35 @@ void harness_framing(void)
 	if (vp_done_calls) {
 		VP_ASSERT((permitted & REF_BODY_NONE) || ((permitted & REF_BODY_LENGTH) && ref_len == 0),
 		    "C23: request taken as having no body although RFC 9112 6.3 frames a body or requires rejection");
+#if !VP_HAS_TE && !VP_KF_ONLY
 		VP_WITNESS("no body");
+#endif
 	} else if (vp_fail_calls) {
 		/* completeness: a regular message (exactly one way to frame it) must not be refused */
 		VP_ASSERT(permitted & REF_BODY_REJECT, "C23: regularly framed request rejected");
 		VP_ASSERT(vp_fail_code == EVREQ_HTTP_INVALID_HEADER, "C23: framing error reported as invalid header (400)");
+#if VP_HAS_CL && !VP_HAS_TE && !VP_KF_ONLY
 		VP_WITNESS("rejected");
+#endif
 	} else if (vp_readbody_calls) {
 		if (vp_rb_chunked) {
 			VP_ASSERT(permitted & REF_BODY_CHUNKED, "C23: body read as chunked although the final transfer coding is not chunked");
+#if VP_HAS_TE && !VP_KF_ONLY
 			VP_WITNESS("chunked body");
+#endif
 		} else {
 			VP_ASSERT(vp_rb_ntoread > 0, "C23: non-chunked request body has a positive length");
 			VP_ASSERT((permitted & REF_BODY_LENGTH) && (unsigned long long)vp_rb_ntoread == ref_len,
 			    "C23: body length taken from a Content-Length the RFC does not allow to be used (or a different value)");
+#if VP_HAS_CL && !VP_HAS_TE && !VP_KF_ONLY
 			VP_WITNESS("content-length body");
+#endif
 		}
 	} else {
 		VP_ASSERT(0, "C23: unexpected continuation (no Expect field, no size limit)");
 	}
 	VP_ASSERT(vp_continue_calls == 0, "C23: 100-continue without Expect");
+#if VP_KF_ONLY
+	VP_WITNESS("known-finding region reached");
+#endif
 }
